@@ -276,6 +276,57 @@ Fixpoint drive (fuel : nat) (bufs : list N) (r : reader) : drive_result :=
     end
   end.
 
+(* like [drive], but per message the caller reads it (ARead), discards it at once
+   (ADiscard) or reads one buffer and then discards the rest (APartial) *)
+Inductive ract := ARead | ADiscard | APartial.
+Definition next_act (pat all : list ract) : ract * list ract :=
+  match pat with
+  | a :: r => (a, r)
+  | [] => match all with a :: r => (a, r) | [] => (ARead, []) end
+  end.
+Definition log_event (r : reader) (ev : event) : reader :=
+  mkR (r_src r) (r_state r) (r_skip r) (r_check_utf8 r) (r_max r) (r_ext r)
+      (r_compressed r) (r_cb r) (r_opcode r) (r_frame r) (r_rawN r) (r_masked r)
+      (r_key r) (r_cpos r) (r_u8wrap r) (r_u8state r) (r_u8acc r) (r_log r ++ [ev]).
+Fixpoint drive_pat (fuel : nat) (bufs : list N) (pat all : list ract) (r : reader) : drive_result :=
+  match fuel with
+  | O => mkDR (r_log r) [] ROutOfFuel
+  | S f =>
+    let '((h, e), r1) := next_frame r in
+    match e with
+    | Some e => mkDR (r_log r1) [] e
+    | None =>
+      let '(a, pat') := next_act pat all in
+      match a with
+      | ARead =>
+        let '((p, e2), r2) := read_to_eof fuel bufs bufs r1 [] in
+        match e2 with
+        | RIo EEOF => drive_pat f bufs pat' all (log_event r2 (mkEv (h_op h) p false (r_compressed r2)))
+        | e2 => mkDR (r_log r2) p e2
+        end
+      | ADiscard =>
+        let '(e2, r2) := discard (S (length (flat (r_src r1)))) r1 in
+        match e2 with
+        | Some e2 => mkDR (r_log r2) [] e2
+        | None => drive_pat f bufs pat' all r2
+        end
+      | APartial =>
+        let '(k, _) := next_buf bufs bufs in
+        let '((d, e2), r2) := reader_read k r1 in
+        match e2 with
+        | Some (RIo EEOF) => drive_pat f bufs pat' all (log_event r2 (mkEv (h_op h) d false (r_compressed r2)))
+        | Some e2 => mkDR (r_log r2) d e2
+        | None =>
+          let '(e3, r3) := discard (S (length (flat (r_src r2)))) r2 in
+          match e3 with
+          | Some e3 => mkDR (r_log r3) [] e3
+          | None => drive_pat f bufs pat' all r3
+          end
+        end
+      end
+    end
+  end.
+
 (* helper.go:ReadMessage — one call. The reader is fresh per call in Go
    (CheckUTF8 = true, OnIntermediate = read-all-and-append); only the source
    persists. *)
